@@ -326,6 +326,50 @@ def validate_before_accept(prog: Program, rep, x: ExcFlow) -> None:
             for nn in walk_expr(e):
                 if is_self_attr(nn) and nn.attr in CACHED and not isinstance(s.stmt, ast.If):
                     touched.setdefault(nn.attr, []).append(s)
+    # `for name in <names>: getattr(self, name)`: the members evaluated are the strings the iterated list can hold, each under the
+    # condition under which it was put there (the loop itself being unconditional)
+    for s in cf.order:
+        lp = s.stmt
+        if not (isinstance(lp, ast.For) and isinstance(lp.target, ast.Name)):
+            continue
+        if not any(isinstance(k, ast.Call) and dotted(k.func) == "getattr" and len(k.args) >= 2 and U(k.args[0]) == "self" and U(k.args[1]) == lp.target.id
+                   for b_ in lp.body for k in ast.walk(b_)):
+            continue
+
+        def strings(e):
+            return [x.value for x in e.elts if isinstance(x, ast.Constant) and isinstance(x.value, str)] if isinstance(e, (ast.List, ast.Tuple)) else []
+        if isinstance(lp.iter, (ast.List, ast.Tuple)):
+            for nm in strings(lp.iter):
+                if nm in CACHED:
+                    touched.setdefault(nm, []).append(s)
+        elif isinstance(lp.iter, ast.Name) and not any(isinstance(n_, ast.Name) and n_.id == lp.iter.id and isinstance(n_.ctx, ast.Store) for n_ in own_nodes(ce.node)):
+            # a module-level constant tuple / list of member names: evaluated under the loop's own condition
+            for st_ in ce.module.tree.body:
+                v_ = st_.value if isinstance(st_, (ast.Assign, ast.AnnAssign)) else None
+                tg_ = (st_.targets[0] if isinstance(st_, ast.Assign) and len(st_.targets) == 1 else getattr(st_, "target", None)) if v_ is not None else None
+                if isinstance(tg_, ast.Name) and tg_.id == lp.iter.id:
+                    for nm in strings(v_):
+                        if nm in CACHED:
+                            touched.setdefault(nm, []).append(s)
+        elif isinstance(lp.iter, ast.Name) and not s.facts:
+            lst = lp.iter.id
+            for q in cf.order:
+                if q.index >= s.index or q.loops:
+                    continue
+                st = q.stmt
+                vals = []
+                if isinstance(st, ast.Assign) and any(U(t) == lst for t in st.targets):
+                    vals = strings(st.value)
+                elif isinstance(st, ast.AugAssign) and U(st.target) == lst and isinstance(st.op, ast.Add):
+                    vals = strings(st.value)
+                elif isinstance(st, ast.Expr) and isinstance(st.value, ast.Call) and isinstance(st.value.func, ast.Attribute) and U(st.value.func.value) == lst:
+                    if st.value.func.attr == "append" and st.value.args and isinstance(st.value.args[0], ast.Constant):
+                        vals = [st.value.args[0].value]
+                    elif st.value.func.attr == "extend" and st.value.args:
+                        vals = strings(st.value.args[0])
+                for nm in vals:
+                    if nm in CACHED:
+                        touched.setdefault(nm, []).append(q)
     for a in CACHED:
         ss = touched.get(a, [])
         if a in ("obj", "obj_grad"):
